@@ -4,7 +4,7 @@ Rules E1-E7 for C11 (forest extraction).  DESIGN.md section 4 (C11).
 from __future__ import annotations
 
 import ast
-from typing import List, Set
+from typing import List, Optional, Set
 
 from ..core import control as C
 from ..core import dataflow as D
@@ -19,11 +19,54 @@ class UnorderedMinimizeOrder(Exception):
         self.node = node
 
 
+def _order_from_enum(P, v) -> Optional[List[str]]:
+    """MINIMIZE_ORDER written as a walk over the enum itself -- `tuple(b for b in RuleBucket if b is not
+    RuleBucket.X)`, `tuple(RuleBucket)`, either inside `reversed(...)` -- is the definition order of
+    the members of RuleBucket (read from the class body), filtered: an order like any other."""
+    rev = False
+    while isinstance(v, ast.Call) and isinstance(v.func, ast.Name) and v.func.id in ("tuple", "list", "reversed") and len(v.args) == 1 and not v.keywords:
+        if v.func.id == "reversed":
+            rev = not rev
+        v = v.args[0]
+    node = None
+    try:
+        node = P.need_class("RuleBucket").node
+    except Exception:       # noqa: BLE001 -- no such class: not this form
+        return None
+    members = [t.id for st in node.body if isinstance(st, ast.Assign) for t in st.targets if isinstance(t, ast.Name)]
+    if isinstance(v, ast.Name) and v.id == "RuleBucket":
+        out = list(members)
+    elif isinstance(v, (ast.GeneratorExp, ast.ListComp)) and len(v.generators) == 1 and norm(v.generators[0].iter) == "RuleBucket" \
+            and isinstance(v.generators[0].target, ast.Name) and norm(v.elt) == v.generators[0].target.id:
+        var = v.generators[0].target.id
+        drop: Set[str] = set()
+        tests = []
+        for t in v.generators[0].ifs:
+            tests += list(t.values) if isinstance(t, ast.BoolOp) and isinstance(t.op, ast.And) else [t]
+        for t in tests:
+            if isinstance(t, ast.Compare) and len(t.ops) == 1 and isinstance(t.ops[0], (ast.IsNot, ast.NotEq)) and norm(t.left) == var \
+                    and isinstance(t.comparators[0], ast.Attribute) and norm(t.comparators[0].value) == "RuleBucket":
+                drop.add(t.comparators[0].attr)
+            elif isinstance(t, ast.Compare) and len(t.ops) == 1 and isinstance(t.ops[0], ast.NotIn) and norm(t.left) == var \
+                    and isinstance(t.comparators[0], (ast.Tuple, ast.List, ast.Set)) \
+                    and all(isinstance(e, ast.Attribute) and norm(e.value) == "RuleBucket" for e in t.comparators[0].elts):
+                drop |= {e.attr for e in t.comparators[0].elts}
+            else:
+                raise AnalysisError(f"MINIMIZE_ORDER filter `{norm(t)}` not understood")
+        out = [m_ for m_ in members if m_ not in drop]
+    else:
+        return None
+    return out[::-1] if rev else out
+
+
 def _minimize_order(P) -> List[str]:
     cls = P.need_class(EX)
     v = cls.class_attrs.get("MINIMIZE_ORDER")
     if isinstance(v, (ast.Set, ast.SetComp)) or (isinstance(v, ast.Call) and isinstance(v.func, ast.Name) and v.func.id in ("set", "frozenset")):
         raise UnorderedMinimizeOrder(v)
+    derived = _order_from_enum(P, v)
+    if derived is not None:
+        return derived
     if v is None or not isinstance(v, (ast.Tuple, ast.List)):
         raise AnchorError("ForestRuleExtractor.MINIMIZE_ORDER is no longer a literal tuple")
     out = []
